@@ -10,7 +10,7 @@ LEVEL = 'exploration'
 RULE = ('case = handler program (data, interpreted by vlib/programs.py): outcome in {str, bytes, empty, None, list / generator / custom iterable object (own '
         'close(), __iter__ returning a separate iterator) of str or bytes with leading empty items, generator or iterable failing at the first next(), file-like '
         'with / without close and __iter__, real seekable streams already read up to an offset, with / without wsgi.file_wrapper, HTTPResponse / HTTPError returned, raised or yielded first, nested up to 3 deep, '
-        'one response object shared by all requests, exception in the handler}; status set on the response or on the returned object from {100,101,102,103,199, '
+        'one response object shared by all requests, exception of a generated class (RuntimeError, ValueError, KeyError, Unicode*Error, OSError, StopIteration, a custom class ...) in the handler}; request paths with and without non-ASCII tails; status set on the response or on the returned object from {100,101,102,103,199, '
         '200,201,204,205,299 Custom,304,404,418,500,999}; headers, cookies, optional explicit Content-Length; 0-3 before-hooks (ok / raise / raise a response) and '
         '0-3 after-hooks; custom error handlers for 404/405/418/500 returning str / bytes / generator or raising; request method GET, HEAD, POST, PUT, DELETE, '
         'OPTIONS; path hits the route, misses it (404) or uses a verb that is not registered (405). Every program is served three times on one application (later '
@@ -41,6 +41,7 @@ def case_st(draw):
         'after': draw(st.lists(st.sampled_from(['ok', 'ok', 'ok', 'remove_self', 'add_after']), max_size=3)),
         'handlers': draw(st.dictionaries(st.sampled_from(['404', '405', '418', '500']), st.sampled_from(['str', 'bytes', 'gen', 'raise', 'empty']), max_size=2)),
         'file_wrapper': draw(st.booleans()),
+        'path_tail': draw(st.sampled_from(['', '', '', 'é', '日本', 'über/ü', '%41', 'a b', '\U0001F600'])),
     }
 
 
@@ -53,7 +54,8 @@ def serve(case, app_box, reqno):
     tr = P.Track()
     app_box['tr'] = tr
     app_box['reqno'] = reqno
-    path = {'hit': '/h', 'miss': '/nothing/here', 'wrongverb': '/w'}[case['target']]
+    tail = case.get('path_tail') or ''
+    path = {'hit': '/h' + ('/' + tail if tail else ''), 'miss': '/nothing/here' + tail, 'wrongverb': '/w' + ('/' + tail if tail else '')}[case['target']]
     qs = 'n=%d&pad=%s' % (reqno, 'p' * (17 * reqno))
     extra = {}
     if case['file_wrapper']:
@@ -86,6 +88,8 @@ def make_app(case):
         return obj
     app.route('/h', method=['GET', 'POST', 'PUT', 'DELETE', 'OPTIONS'], callback=handler)
     app.route('/w', method='PATCH', callback=handler)
+    app.route('/h/<tail:path>', method=['GET', 'POST', 'PUT', 'DELETE', 'OPTIONS'], callback=lambda tail: handler())
+    app.route('/w/<tail:path>', method='PATCH', callback=lambda tail: handler())
     hooks = {}
     for i, kind in enumerate(case['before']):
         def bh(i=i, kind=kind):
